@@ -204,3 +204,111 @@ def combine_tail(ctx):
                 ctx.oblige(f"pair-means-both-relations[{a_name},{b_name}]#{n}", s, z3.Implies(z3.And(op1.term == a, op2.term == b), pair == both), replay={"mirror": "corpus", "trait": "math"})
     ctx.cover("some-return", [z3.BoolVal(n_ret > 0)])
     ctx.inputs.clear()
+
+
+def _expr_model(ctx):
+    """sympy expressions as integer identifiers: is_const(e) / int(e) / sympy2ast(e) are uninterpreted in e"""
+    m, ex = ctx.m, ctx.ex
+    is_const = ex.ufunc("expr_is_const", [z3.IntSort()], z3.BoolSort())
+    ast_of = ex.ufunc("expr_ast", [z3.IntSort()], m.AST)
+    ex.overrides["ngo.math_simplification:Goebner.is_const"] = lambda e, s, a, k: [(s, SV(is_const(e.to_term(s, a[-1], "int")), "bool"))]
+    ex.overrides["ngo.math_simplification:Goebner.sympy2ast"] = lambda e, s, a, k: [(s, SV(ast_of(e.to_term(s, a[-1], "int")), "ast"))]
+    ctx.assume_note("sympy expressions are integer identifiers; for a constant expression the identifier is its value (int(e) = e); is_const and sympy2ast are uninterpreted; sympy2ast(e) is assumed to be a term or body aggregate that denotes e")
+    return is_const, ast_of
+
+
+@unit("C14.relation2ast", "C14", "ngo.math_simplification:Goebner.relation2ast", fallback={"mirror": "corpus", "trait": "math"})
+def relation2ast(ctx):
+    """the literal built for a relation `lhs op rhs` is: the truth value of `lhs op rhs` if both sides are constants;
+    the aggregate of rhs with the LEFT guard `lhs op` if rhs is an aggregate; the comparison `lhs op rhs` otherwise --
+    sides and operator in this order"""
+    sem, m, ex = sem_of(ctx), ctx.m, ctx.ex
+    A = m.AST
+    is_const, ast_of = _expr_model(ctx)
+    st = ctx.state()
+    lhs, rhs = ctx.sym("lhs", "int"), ctx.sym("rhs", "int")
+    op = ctx.sym("op", ("enum", "ComparisonOperator"))
+    st.assume(ast_of(lhs.term) != m.NoneAST, ast_of(rhs.term) != m.NoneAST)
+    me = ctx.new_object(st, "Goebner")
+    res = ctx.call(st, ctx.method("ngo.math_simplification", "Goebner", "relation2ast", me), [lhs, op, rhs])
+    ok, bad = returned(res)
+    ctx.cover("reach", st)
+    no_raise(ctx, "no-raise", res, kind="assert")
+    ln, at = m.lst_funcs("ast")
+    ra = ast_of(rhs.term)
+    for n, (s, r) in enumerate(ok):
+        rt = ex.to_term(s, r, "ast")
+        both_const = z3.And(is_const(lhs.term), is_const(rhs.term))
+        g = at(A.Comparison_guards(rt), 0)
+        ctx.oblige(
+            f"post#{n}",
+            s,
+            z3.And(
+                z3.Implies(both_const, z3.And(A.is_BooleanConstant(rt), A.BooleanConstant_value(rt) == sem.cmp_int(op.term, lhs.term, rhs.term))),
+                z3.Implies(
+                    z3.And(z3.Not(both_const), A.is_BodyAggregate(ra)),
+                    rt == A.BodyAggregate(A.Guard(op.term, ast_of(lhs.term)), A.BodyAggregate_function(ra), A.BodyAggregate_elements(ra), A.BodyAggregate_right_guard(ra)),
+                ),
+                z3.Implies(
+                    z3.And(z3.Not(both_const), z3.Not(A.is_BodyAggregate(ra))),
+                    z3.And(A.is_Comparison(rt), A.Comparison_term(rt) == ast_of(lhs.term), ln(A.Comparison_guards(rt)) == 1, g == A.Guard(op.term, ra)),
+                ),
+            ),
+            replay={"mirror": "corpus", "trait": "math"},
+        )
+    ctx.inputs.clear()
+
+
+@unit("C14.double_relation2ast", "C14", "ngo.math_simplification:Goebner.double_relation2ast", fallback={"mirror": "corpus", "trait": "math"})
+def double_relation2ast(ctx):
+    """the literal built for `lhs opl mid opr rhs`: with a constant mid and a constant outer side the constant link is
+    evaluated (a false link gives #false, a true one leaves the other link, built by relation2ast with its sides in
+    order); otherwise the aggregate of mid with LEFT guard `lhs opl` and RIGHT guard `opr rhs`, or the chain
+    `lhs opl mid opr rhs`"""
+    sem, m, ex = sem_of(ctx), ctx.m, ctx.ex
+    A = m.AST
+    is_const, ast_of = _expr_model(ctx)
+    st = ctx.state()
+    lhs, mid, rhs = ctx.sym("lhs", "int"), ctx.sym("mid", "int"), ctx.sym("rhs", "int")
+    opl, opr = ctx.sym("opl", ("enum", "ComparisonOperator")), ctx.sym("opr", ("enum", "ComparisonOperator"))
+    for e_ in (lhs, mid, rhs):
+        st.assume(ast_of(e_.term) != m.NoneAST)
+    R2 = ex.ufunc("relation2ast", [z3.IntSort(), m.sort(("enum", "ComparisonOperator")), z3.IntSort()], m.AST)
+    ex.overrides["ngo.math_simplification:Goebner.relation2ast"] = lambda e, s, a, k: [(s, SV(R2(e.to_term(s, a[-3], "int"), e.to_term(s, a[-2], ("enum", "ComparisonOperator")), e.to_term(s, a[-1], "int")), "ast"))]
+    ctx.assume_note("relation2ast is used through its contract (C14.relation2ast): here an uninterpreted function of (lhs, op, rhs)")
+    me = ctx.new_object(st, "Goebner")
+    res = ctx.call(st, ctx.method("ngo.math_simplification", "Goebner", "double_relation2ast", me), [lhs, opl, mid, opr, rhs])
+    ok, bad = returned(res)
+    ctx.cover("reach", st)
+    no_raise(ctx, "no-raise", res, kind="assert")
+    ln, at = m.lst_funcs("ast")
+    ma = ast_of(mid.term)
+    cm, cl, cr = is_const(mid.term), is_const(lhs.term), is_const(rhs.term)
+    left_true = sem.cmp_int(opl.term, lhs.term, mid.term)
+    right_true = sem.cmp_int(opr.term, mid.term, rhs.term)
+    for n, (s, r) in enumerate(ok):
+        rt = ex.to_term(s, r, "ast")
+        g0, g1 = at(A.Comparison_guards(rt), 0), at(A.Comparison_guards(rt), 1)
+        const_left = z3.And(cm, cl)
+        const_right = z3.And(cm, z3.Not(cl), cr)
+        general = z3.Not(z3.Or(const_left, const_right))
+        ctx.oblige(
+            f"post#{n}",
+            s,
+            z3.And(
+                z3.Implies(z3.And(const_left, left_true), rt == R2(mid.term, opr.term, rhs.term)),
+                z3.Implies(z3.And(const_left, z3.Not(left_true)), z3.And(A.is_BooleanConstant(rt), z3.Not(A.BooleanConstant_value(rt)))),
+                z3.Implies(z3.And(const_right, right_true), rt == R2(lhs.term, opl.term, mid.term)),
+                z3.Implies(z3.And(const_right, z3.Not(right_true)), z3.And(A.is_BooleanConstant(rt), z3.Not(A.BooleanConstant_value(rt)))),
+                z3.Implies(
+                    z3.And(general, A.is_BodyAggregate(ma)),
+                    rt == A.BodyAggregate(A.Guard(opl.term, ast_of(lhs.term)), A.BodyAggregate_function(ma), A.BodyAggregate_elements(ma), A.Guard(opr.term, ast_of(rhs.term))),
+                ),
+                z3.Implies(
+                    z3.And(general, z3.Not(A.is_BodyAggregate(ma))),
+                    z3.And(A.is_Comparison(rt), A.Comparison_term(rt) == ast_of(lhs.term), ln(A.Comparison_guards(rt)) == 2, g0 == A.Guard(opl.term, ma), g1 == A.Guard(opr.term, ast_of(rhs.term))),
+                ),
+            ),
+            replay={"mirror": "corpus", "trait": "math"},
+        )
+    ctx.inputs.clear()
